@@ -27,6 +27,8 @@ func zeroListProj() listProj {
 type listSys struct {
 	s      *list.SList[int]
 	d      *list.DList[int]
+	hs     *list.SingleNode[int] // a handle held across edits (see List.tla)
+	hd     *list.DoubleNode[int]
 	probes []int // values used so far, plus one absent value
 }
 
@@ -45,6 +47,48 @@ func (s *listSys) Do(o tt.Op) tt.Res {
 		s.use(v)
 	}
 	switch o.N {
+	case "append", "replace", "unshift", "insafter", "hold", "delheld":
+	default:
+		s.hs, s.hd = nil, nil // every other edit may remove or re-seat nodes: the handle is given up
+	}
+	switch o.N {
+	case "newsn":
+		s.s = list.Init(o.A[0])
+		for _, v := range o.A[1:] {
+			s.s.Append(v)
+		}
+		s.use(99)
+		return tt.Res{Ok: true}
+	case "newdn":
+		s.d = list.InitDList(o.A[0])
+		for _, v := range o.A[1:] {
+			s.d.Append(v)
+		}
+		s.use(99)
+		return tt.Res{Ok: true}
+	case "hold":
+		s.hs, s.hd = nil, nil
+		if s.s != nil {
+			n, found := s.s.Find(o.A[0])
+			if found && n != nil && n != &s.s.SingleNode {
+				s.hs = n
+			}
+			return tt.Res{Ok: s.hs != nil}
+		}
+		return tt.Res{Ok: s.holdD(o.A[0])}
+	case "delheld":
+		if s.s != nil {
+			if s.hs == nil {
+				return tt.Res{Ok: false, V: 2}
+			}
+			n := s.hs
+			s.hs = nil
+			return ok(s.s.Delete(n))
+		}
+		if s.hd == nil {
+			return tt.Res{Ok: false, V: 2}
+		}
+		return ok(s.delHeldD())
 	case "news":
 		s.s = list.Init(o.A[0])
 		s.use(99)
@@ -111,6 +155,45 @@ func (s *listSys) Do(o tt.Op) tt.Res {
 		return ok(s.d.Replace(o.A[0], o.A[1]))
 	}
 	panic("list driver: unknown op " + o.N)
+}
+
+func (s *listSys) holdD(v int) bool {
+	n, found := s.d.Find(v)
+	if found && n != nil && n != &s.d.DoubleNode {
+		s.hd = n
+	}
+	return s.hd != nil
+}
+
+func (s *listSys) delHeldD() error {
+	n := s.hd
+	s.hd = nil
+	return s.d.Delete(n)
+}
+
+// listHandles: lists of four nodes, handles held across value-changing edits that create duplicates
+func listHandles(depth int) *tt.Explorer {
+	return &tt.Explorer{
+		New:      func() tt.Sys { return &listSys{} },
+		ZeroProj: zeroListProj(),
+		Ops: func(path []tt.Op) []tt.Op {
+			if len(path) == 0 {
+				return []tt.Op{op("newsn", 1, 2, 3, 4), op("newdn", 1, 2, 3, 4)}
+			}
+			if len(path) > depth {
+				return nil
+			}
+			fresh := 10 + len(path)
+			r := []tt.Op{op("hold", 2), op("hold", 3), op("hold", 4), op("hold", 1), op("delheld"),
+				op("unshift", fresh), op("append", fresh), op("insafter", 1, fresh), op("insafter", 3, fresh),
+				op("delete", 2), op("shift")}
+			for _, p := range [][2]int{{1, 3}, {2, 4}, {3, 2}, {2, 3}, {4, 2}, {1, 2}, {1, 4}} {
+				r = append(r, op("replace", p[0], p[1]))
+			}
+			return r
+		},
+		SplitDepth: 2,
+	}
 }
 
 func (s *listSys) each() []int {
@@ -315,6 +398,15 @@ func init() {
 				return nil, err
 			}
 			s.add(st)
+			hd := 3
+			if cfg.Tier == "thorough" {
+				hd = 4
+			}
+			st2, err := listHandles(hd).Explore(cfg.Out+".handles.tree", cfg.Shards)
+			if err != nil {
+				return nil, err
+			}
+			s.add(st2)
 			runs, steps := 6, 300
 			if cfg.Tier == "thorough" {
 				runs, steps = 24, 1000
